@@ -327,6 +327,139 @@ func runC13(c *Ctx) {
 		c.R.Check(bad == "", "R13.13", "AddPrecomputedValue registers the text it is given without normalising it", p.Pos(apv.Pos()), "normalize is not reachable from it",
 			"AddPrecomputedValue runs the normalisers over a text that is normalised already: with a normaliser that is not idempotent the registered text differs from the one its search set was computed from and from the normalised unknown text, so a verbatim copy is not found exactly")
 	}
+	checkConfidenceExact(c, p)
+}
+
+// checkConfidenceExact: R13.14, R13.15, R13.16.
+func checkConfidenceExact(c *Ctx, p *core.Prog) {
+	fns := pkgFuncs(p, scPkg)
+	// R13.14: Confidence 1.0 means "verbatim": the confidence of a near match is 1 - distance/length, strictly below 1.0. No
+	// function of the package rounds a floating-point number (math.Round/Floor/Ceil/Trunc, a conversion to an integer): a
+	// rounded confidence makes a near match tie with the verbatim copy, which then loses the name tie-break or is filtered
+	// as "contained"
+	{
+		bad := ""
+		nF := 0
+		for _, fn := range fns {
+			hasFloat := false
+			for _, b := range fn.Blocks {
+				for _, in := range b.Instrs {
+					if v, ok := in.(ssa.Value); ok {
+						if bt, ok := v.Type().Underlying().(*types.Basic); ok && bt.Info()&types.IsFloat != 0 {
+							hasFloat = true
+						}
+					}
+					switch x := in.(type) {
+					case *ssa.Call:
+						switch core.StaticCalleeName(x.Common()) {
+						case "math.Round", "math.RoundToEven", "math.Floor", "math.Ceil", "math.Trunc":
+							if bad == "" {
+								bad = core.ShortFn(fn) + " calls " + core.StaticCalleeName(x.Common()) + " at " + p.Pos(x.Pos())
+							}
+						}
+					case *ssa.Convert:
+						from, ok1 := x.X.Type().Underlying().(*types.Basic)
+						to, ok2 := x.Type().Underlying().(*types.Basic)
+						if ok1 && ok2 && from.Info()&types.IsFloat != 0 && to.Info()&types.IsInteger != 0 {
+							if _, isConst := x.X.(*ssa.Const); !isConst && bad == "" {
+								bad = core.ShortFn(fn) + " converts a floating-point value to an integer at " + p.Pos(x.Pos())
+							}
+						}
+					}
+				}
+			}
+			if hasFloat {
+				nF++
+			}
+		}
+		c.R.Check(bad == "", "R13.14", "no confidence or ratio is rounded", scPkg, fmt.Sprintf("%d functions that compute with floating-point numbers: no math.Round/Floor/Ceil/Trunc, no float-to-integer conversion", nF),
+			bad+": a rounded confidence is 1.0 for near matches as well (0.995 and above with two decimals) - a near match then ties with the verbatim copy of another value, wins the name tie-break, and the verbatim copy is dropped as contained in it")
+		c.R.RequireMin("R13.14", "functions that compute with floating-point numbers", nF, 3)
+	}
+	// R13.15: a match whose confidence equals the threshold is reported: every comparison with the classifier's threshold
+	// puts equality on the accepting side (`v < threshold` rejects, `v >= threshold` accepts). With threshold 1.0 the
+	// verbatim copies are exactly the matches with confidence == threshold.
+	{
+		bad := ""
+		nC := 0
+		for _, fn := range fns {
+			for _, b := range fn.Blocks {
+				for _, in := range b.Instrs {
+					bo, ok := in.(*ssa.BinOp)
+					if !ok {
+						continue
+					}
+					right := strings.HasSuffix(core.AP(bo.Y), ".threshold")
+					left := strings.HasSuffix(core.AP(bo.X), ".threshold")
+					if right == left {
+						continue
+					}
+					op := bo.Op
+					if left {
+						switch op {
+						case token.LSS:
+							op = token.GTR
+						case token.GTR:
+							op = token.LSS
+						case token.LEQ:
+							op = token.GEQ
+						case token.GEQ:
+							op = token.LEQ
+						}
+					}
+					switch op {
+					case token.LSS, token.GEQ:
+						nC++
+					case token.LEQ, token.GTR:
+						nC++
+						if bad == "" {
+							bad = core.ShortFn(fn) + ": value " + op.String() + " threshold at " + p.Pos(bo.Pos())
+						}
+					}
+				}
+			}
+		}
+		c.R.Check(bad == "", "R13.15", "a confidence equal to the threshold is accepted", scPkg, fmt.Sprintf("%d comparisons with the threshold, each `v < threshold` or `v >= threshold`", nC),
+			bad+": a match whose confidence equals the threshold falls on the rejecting side - with threshold 1.0 that is every verbatim copy")
+		c.R.RequireMin("R13.15", "comparisons with the threshold", nC, 1)
+	}
+	// R13.16: the classifier normalises with the functions it was given - New does not substitute another list for the
+	// caller's (an empty list means "compare the texts as they are"; Offset/Extent then refer to the unknown text itself)
+	if nw := p.Func(scPkg, "New"); nw != nil && nw.Signature.Variadic() {
+		va := nw.Params[len(nw.Params)-1]
+		bad := ""
+		for _, b := range nw.Blocks {
+			for _, in := range b.Instrs {
+				ph, ok := in.(*ssa.Phi)
+				if !ok || !types.Identical(ph.Type(), va.Type()) {
+					continue
+				}
+				hasParam, other := false, ""
+				for _, e := range ph.Edges {
+					if core.Unspill(e) == ssa.Value(va) {
+						hasParam = true
+					} else {
+						other = eng.Describe(e)
+					}
+				}
+				if hasParam && other != "" {
+					bad = "the list of normalisers is " + other + " on some path (" + p.Pos(ph.Pos()) + ")"
+				}
+			}
+		}
+		// a spilled parameter that is stored to
+		for _, b := range nw.Blocks {
+			for _, in := range b.Instrs {
+				if st, ok := in.(*ssa.Store); ok {
+					if al, ok := st.Addr.(*ssa.Alloc); ok && !al.Heap && types.Identical(st.Val.Type(), va.Type()) && st.Val != ssa.Value(va) && strings.Contains(al.Comment, va.Name()) {
+						bad = "the parameter is assigned " + eng.Describe(st.Val) + " (" + p.Pos(st.Pos()) + ")"
+					}
+				}
+			}
+		}
+		c.R.Check(bad == "", "R13.16", "New uses the normalisers it is given, also when there are none", p.Pos(nw.Pos()), "the variadic parameter is never merged with another list",
+			bad+": a classifier created without normalisers compares other text than the caller's - Offset and Extent no longer delimit the copy in the unknown string as given")
+	}
 }
 
 // behindStringEquality: block b is only reached when a comparison of two strings for equality held.
@@ -597,7 +730,7 @@ func runC16(c *Ctx) {
 	// shared with C14: NearestMatch/MultipleMatch keep no scratch state between calls (R14.5); shared with C15: every
 	// archived text is read completely and paired with its own search set when the corpus is loaded (R15.2, R15.4)
 	checkV1SharedWrites(c, p)
-	borrowRules(c, []string{"R15.2", "R15.3", "R15.4", "R15.8", "R15.9"}, runC15)
+	borrowRules(c, []string{"R15.2", "R15.3", "R15.4", "R15.8", "R15.9", "R15.17"}, runC15)
 	// shared with C13: the classifier keeps its own copy of the normaliser list (R13.8) - the exported Normalizers slice it is
 	// built from can be assigned to afterwards
 	if c.R.Filter == nil {
@@ -723,6 +856,58 @@ func checkCommonWordsGate(c *Ctx, p *core.Prog) {
 	gate := p.Func(core.RootMod, "(*License).hasCommonLicenseWords")
 	if !c.R.Anchor(gate != nil, "(*License).hasCommonLicenseWords") {
 		return
+	}
+	// R16.6: License.NearestMatch answers nil only where the common-words gate rejected the text (or the classifier itself
+	// found nothing): no other test - on the name that was found, on phrases in the raw text - turns a found license into
+	// "no match". Such a test sees the text as it was presented (re-flowed, decorated), not as it is compared.
+	if nm := p.Func(core.RootMod, "(*License).NearestMatch"); nm != nil && len(nm.Blocks) > 0 {
+		cd := core.NewPostDom(nm).TransitiveControlDeps()
+		bad := ""
+		nNil := 0
+		okCond := func(v ssa.Value) bool {
+			if u, ok := v.(*ssa.UnOp); ok && u.Op == token.NOT {
+				v = u.X
+			}
+			if cl, ok := v.(*ssa.Call); ok && cl.Call.StaticCallee() == gate {
+				return true
+			}
+			if bo, ok := v.(*ssa.BinOp); ok && (bo.Op == token.EQL || bo.Op == token.NEQ) {
+				if k, isK := bo.Y.(*ssa.Const); isK && k.IsNil() {
+					if cl, isCall := core.Unspill(bo.X).(*ssa.Call); isCall && strings.HasSuffix(core.StaticCalleeName(cl.Common()), ".NearestMatch") {
+						return true
+					}
+				}
+			}
+			return false
+		}
+		nilFrom := func(b *ssa.BasicBlock) {
+			nNil++
+			for d := range cd[b] {
+				if ifi, ok := d.Instrs[len(d.Instrs)-1].(*ssa.If); ok && !okCond(ifi.Cond) && bad == "" {
+					bad = "the test at " + p.Pos(ifi.Cond.Pos()) + " (" + eng.Describe(ifi.Cond) + ")"
+				}
+			}
+		}
+		for _, b := range nm.Blocks {
+			ret, ok := b.Instrs[len(b.Instrs)-1].(*ssa.Return)
+			if !ok || len(ret.Results) != 1 {
+				continue
+			}
+			switch x := ret.Results[0].(type) {
+			case *ssa.Const:
+				if x.IsNil() {
+					nilFrom(b)
+				}
+			case *ssa.Phi:
+				for i, e := range x.Edges {
+					if k, isK := e.(*ssa.Const); isK && k.IsNil() {
+						nilFrom(x.Block().Preds[i])
+					}
+				}
+			}
+		}
+		c.R.Check(bad == "", "R16.6", "License.NearestMatch returns nil only where the common-words gate (or the classifier) found nothing", p.Pos(nm.Pos()), fmt.Sprintf("%d nil result(s), each controlled by the gate only", nNil),
+			"a nil result depends on "+bad+": a license of the corpus that the classifier identified is reported as no match when its text is presented differently (re-flowed, decorated)")
 	}
 	rawCallers := 0
 	nCalls := 0
